@@ -95,7 +95,7 @@ func newConc(r *rand.Rand) *conc {
 	blks := []int{1, 1, 2, 7, 100, 1500, 4096, 5000}
 	if tlaio.Thorough() {
 		blks = append(blks, 20000, 349525) // 3 cells = 1 MiB - 1, the largest payload
-	} else if r.Intn(40) == 0 {
+	} else if r.Intn(12) == 0 {
 		blks = []int{349525}
 	}
 	c.blk = blks[r.Intn(len(blks))]
@@ -415,6 +415,17 @@ func TestReplay(t *testing.T) {
 			return nil
 		}
 		c := newConc(rand.New(rand.NewSource(sub)))
+		// a behaviour whose payloads are all zero or one cell long (and whose length fields are not altered) can
+		// use a cell of EXACTLY the maximum payload (1 MiB), the largest packet a writer may legally produce
+		small := true
+		for _, e := range evs {
+			if (e.Op == "write" && e.Pl > 1) || (e.Op == "corrupt" && e.Kind == "pl") {
+				small = false
+			}
+		}
+		if small && c.rnd.Intn(3) == 0 {
+			c.blk = payloadMax
+		}
 		id := fmt.Sprintf("b%d", idx)
 		sig, nontrivial := "", false
 		for _, e := range evs {
